@@ -52,6 +52,7 @@ type Term struct {
 	Args []*Term
 	Name string
 	F    float64
+	R    *big.Rat // exact value of a numeric constant that is not a float64 (REAL mode only); F is then the nearest float64
 	B    bool
 	ID   int
 }
@@ -120,6 +121,9 @@ func NewCtx(m Mode) *Ctx {
 func (c *Ctx) key(t *Term) string {
 	var sb strings.Builder
 	fmt.Fprintf(&sb, "%d|%d|%s|%x|%v", t.Op, t.Sort, t.Name, math.Float64bits(t.F), t.B)
+	if t.R != nil {
+		sb.WriteString("|r" + t.R.RatString())
+	}
 	for _, a := range t.Args {
 		fmt.Fprintf(&sb, "|%d", a.ID)
 	}
@@ -151,24 +155,101 @@ func (c *Ctx) Bool(b bool) *Term {
 }
 func (c *Ctx) Num(f float64) *Term { return c.mk(&Term{Op: OConstN, Sort: SNum, F: f}) }
 
+// Rat makes an exact rational constant (REAL mode); it collapses to a float64 constant when exactly representable.
+func (c *Ctx) Rat(r *big.Rat) *Term {
+	f, exact := r.Float64()
+	if exact {
+		return c.Num(f)
+	}
+	return c.mk(&Term{Op: OConstN, Sort: SNum, F: f, R: new(big.Rat).Set(r)})
+}
+
+// cmpConst compares two numeric constants exactly.
+func cmpConst(a, b *Term) int {
+	if a.R == nil && b.R == nil {
+		switch {
+		case a.F < b.F:
+			return -1
+		case a.F > b.F:
+			return 1
+		}
+		return 0
+	}
+	ra, rb := a.R, b.R
+	if ra == nil {
+		ra = new(big.Rat)
+		ra.SetFloat64(a.F)
+	}
+	if rb == nil {
+		rb = new(big.Rat)
+		rb.SetFloat64(b.F)
+	}
+	return ra.Cmp(rb)
+}
+
+func constRat(t *Term) *big.Rat {
+	if t.R != nil {
+		return t.R
+	}
+	r := new(big.Rat)
+	if r.SetFloat64(t.F) == nil {
+		return nil
+	}
+	return r
+}
+
+// foldReal folds an arithmetic operation on two constants exactly (REAL mode).
+func (c *Ctx) foldReal(op Op, a, b *Term) *Term {
+	if c.Mode != REAL || a.Op != OConstN || b.Op != OConstN {
+		return nil
+	}
+	ra, rb := constRat(a), constRat(b)
+	if ra == nil || rb == nil {
+		return nil
+	}
+	r := new(big.Rat)
+	switch op {
+	case OAdd:
+		r.Add(ra, rb)
+	case OSub:
+		r.Sub(ra, rb)
+	case OMul:
+		r.Mul(ra, rb)
+	case ODiv:
+		if rb.Sign() == 0 {
+			return nil
+		}
+		r.Quo(ra, rb)
+	default:
+		return nil
+	}
+	return c.Rat(r)
+}
+
 func (c *Ctx) n(op Op, s Sort, args ...*Term) *Term {
 	return c.mk(&Term{Op: op, Sort: s, Args: args})
 }
 
 func (c *Ctx) Add(a, b *Term) *Term {
+	if f := c.foldReal(OAdd, a, b); f != nil {
+		return f
+	}
 	if c.Mode == REAL {
-		if a.Op == OConstN && a.F == 0 {
+		if a.Op == OConstN && a.R == nil && a.F == 0 {
 			return b
 		}
-		if b.Op == OConstN && b.F == 0 {
+		if b.Op == OConstN && b.R == nil && b.F == 0 {
 			return a
 		}
 	}
 	return c.n(OAdd, SNum, a, b)
 }
 func (c *Ctx) Sub(a, b *Term) *Term {
+	if f := c.foldReal(OSub, a, b); f != nil {
+		return f
+	}
 	if c.Mode == REAL {
-		if b.Op == OConstN && b.F == 0 {
+		if b.Op == OConstN && b.R == nil && b.F == 0 {
 			return a
 		}
 		if a == b {
@@ -178,20 +259,23 @@ func (c *Ctx) Sub(a, b *Term) *Term {
 	return c.n(OSub, SNum, a, b)
 }
 func (c *Ctx) Mul(a, b *Term) *Term {
-	if a.Op == OConstN && a.F == 1 {
+	if f := c.foldReal(OMul, a, b); f != nil {
+		return f
+	}
+	if a.Op == OConstN && a.R == nil && a.F == 1 {
 		return b
 	}
-	if b.Op == OConstN && b.F == 1 {
+	if b.Op == OConstN && b.R == nil && b.F == 1 {
 		return a
 	}
-	if a.Op == OConstN && a.F == -1 {
+	if a.Op == OConstN && a.R == nil && a.F == -1 {
 		return c.Neg(b)
 	}
-	if b.Op == OConstN && b.F == -1 {
+	if b.Op == OConstN && b.R == nil && b.F == -1 {
 		return c.Neg(a)
 	}
 	if c.Mode == REAL {
-		if (a.Op == OConstN && a.F == 0) || (b.Op == OConstN && b.F == 0) {
+		if (a.Op == OConstN && a.R == nil && a.F == 0) || (b.Op == OConstN && b.R == nil && b.F == 0) {
 			return c.Num(0)
 		}
 	}
@@ -202,7 +286,10 @@ func (c *Ctx) Mul(a, b *Term) *Term {
 	return c.n(OMul, SNum, a, b)
 }
 func (c *Ctx) Div(a, b *Term) *Term {
-	if b.Op == OConstN && b.F == 1 {
+	if f := c.foldReal(ODiv, a, b); f != nil {
+		return f
+	}
+	if b.Op == OConstN && b.R == nil && b.F == 1 {
 		return a
 	}
 	return c.n(ODiv, SNum, a, b)
@@ -212,30 +299,39 @@ func (c *Ctx) Neg(a *Term) *Term {
 		return a.Args[0]
 	}
 	if a.Op == OConstN {
+		if a.R != nil {
+			return c.Rat(new(big.Rat).Neg(a.R))
+		}
 		return c.Num(-a.F)
 	}
 	return c.n(ONeg, SNum, a)
 }
 func (c *Ctx) Abs(a *Term) *Term {
 	if a.Op == OConstN {
+		if a.R != nil {
+			return c.Rat(new(big.Rat).Abs(a.R))
+		}
 		return c.Num(math.Abs(a.F))
 	}
 	return c.n(OAbs, SNum, a)
 }
 func (c *Ctx) Floor(a *Term) *Term {
-	if a.Op == OConstN {
+	if a.Op == OConstN && a.R == nil {
 		return c.Num(math.Floor(a.F))
 	}
 	return c.n(OFloor, SNum, a)
 }
 func (c *Ctx) Round(a *Term) *Term {
-	if a.Op == OConstN {
+	if a.Op == OConstN && a.R == nil {
 		return c.Num(math.Round(a.F))
 	}
 	return c.n(ORound, SNum, a)
 }
 func (c *Ctx) Lt(a, b *Term) *Term {
 	if a.Op == OConstN && b.Op == OConstN {
+		if a.R != nil || b.R != nil {
+			return c.Bool(cmpConst(a, b) < 0)
+		}
 		return c.Bool(a.F < b.F)
 	}
 	if a == b {
@@ -245,6 +341,9 @@ func (c *Ctx) Lt(a, b *Term) *Term {
 }
 func (c *Ctx) Le(a, b *Term) *Term {
 	if a.Op == OConstN && b.Op == OConstN {
+		if a.R != nil || b.R != nil {
+			return c.Bool(cmpConst(a, b) <= 0)
+		}
 		return c.Bool(a.F <= b.F)
 	}
 	if c.Mode == REAL {
@@ -260,6 +359,9 @@ func (c *Ctx) Gt(a, b *Term) *Term { return c.Lt(b, a) }
 func (c *Ctx) Ge(a, b *Term) *Term { return c.Le(b, a) }
 func (c *Ctx) Eq(a, b *Term) *Term {
 	if a.Op == OConstN && b.Op == OConstN {
+		if a.R != nil || b.R != nil {
+			return c.Bool(cmpConst(a, b) == 0)
+		}
 		return c.Bool(a.F == b.F)
 	}
 	if a == b && c.Mode == REAL {
@@ -394,6 +496,14 @@ func ratString(f float64) string {
 	return fmt.Sprintf("(/ %s.0 %s.0)", num.String(), den.String())
 }
 
+func bigRatString(r *big.Rat) string {
+	num, den := r.Num(), r.Denom()
+	if num.Sign() < 0 {
+		return fmt.Sprintf("(- (/ %s.0 %s.0))", new(big.Int).Neg(num).String(), den.String())
+	}
+	return fmt.Sprintf("(/ %s.0 %s.0)", num.String(), den.String())
+}
+
 func fpString(f float64) string {
 	b := math.Float64bits(f)
 	return fmt.Sprintf("(fp #b%01b #b%011b #b%052b)", b>>63, (b>>52)&0x7ff, b&((1<<52)-1))
@@ -416,6 +526,9 @@ func (c *Ctx) Ref(t *Term) string {
 	case OConstN:
 		if c.Mode == FP {
 			return fpString(t.F)
+		}
+		if t.R != nil {
+			return bigRatString(t.R)
 		}
 		return ratString(t.F)
 	}
@@ -616,9 +729,13 @@ func (c *Ctx) EvalExact(t *Term, num func(string) (*big.Rat, bool), boolv func(s
 		case OConstB:
 			out.b = t.B
 		case OConstN:
-			out.r = new(big.Rat)
-			if out.r.SetFloat64(t.F) == nil {
-				out.ok = false
+			if t.R != nil {
+				out.r = t.R
+			} else {
+				out.r = new(big.Rat)
+				if out.r.SetFloat64(t.F) == nil {
+					out.ok = false
+				}
 			}
 		case OAdd, OSub, OMul, ODiv, OLt, OLe, OEq:
 			x, y, ok := bin()
